@@ -1411,6 +1411,9 @@ pid_t __wrap_fork(void)
 	return p;
 }
 
+/* for a child that was not created through fork(3) (raw system call, clone): it is not part of the monitored process */
+void vt_mark_child(void) { in_child = 1; }
+
 pid_t __wrap_wait4(pid_t pid, int *status, int options, struct rusage *ru)
 {
 	int st = 0;
